@@ -283,6 +283,50 @@ def run_item(item):
         f2 = dict(functions)
         f2[t] = modified(functions[t])
         reform("function", t, params, f2, allowed_from({t}), must_change=t)
+    # (d) a user function that reads one of its arguments in another time unit (weekly instead of monthly):
+    #     the derived weekly node must not disturb its monthly source nor anything else outside descendants(f)
+    import re as _re
+
+    unit_m = _re.compile(r"(?P<base>.*_)m(?P<agg>_hh|_wthh|_fg|_bg|_eg|_ehe|_sn)?$")
+    done = 0
+    for t in mine:
+        f = functions[t]
+        margs = [a for a in inspect.signature(f).parameters if unit_m.match(a) and a in nodes and a not in df.columns]
+        if not margs or done >= (2 if item["tier"] == "quick" else 6):
+            continue
+        a = margs[0]
+        mm = unit_m.match(a)
+        aw = f"{mm.group('base')}w{mm.group('agg') or ''}"
+        if aw in nodes or aw in df.columns or aw in functions:
+            continue
+        params_sig = list(inspect.signature(f).parameters)
+        new_args = [aw if x == a else x for x in params_sig]
+        ns = {"_f": f, "_fac": (365.25 / 7) / 12.0}
+        src = (f"def _g({', '.join(new_args)}):\n    return _f(" + ", ".join(f"{x}={(aw + ' * _fac') if x == a else x}" for x in params_sig) + ")\n")
+        exec(src, ns)  # noqa: S102
+        g = ns["_g"]
+        g.__name__ = f.__name__
+        g.__annotations__ = {**{(aw if k == a else k): v for k, v in f.__annotations__.items()}}
+        if hasattr(f, "__info__"):
+            g.__info__ = dict(f.__info__)
+        f2 = dict(functions)
+        f2[t] = g
+        try:
+            S1, nodes1, _, _, _ = env.trace(df, params, f2, TARGETS)
+        except Exception as e:  # noqa: BLE001
+            res["reform_failed"].append(f"other_unit:{t}:{type(e).__name__}")
+            continue
+        done += 1
+        res["runs"] += 1
+        res["kinds"]["function_other_unit"] = res["kinds"].get("function_other_unit", 0) + 1
+        res["reforms"].append(("function_other_unit", f"{t}({aw})"))
+        common = [x for x in nodes if x in S1.columns]
+        allowed = allowed_from({t})
+        ch = [x for x in changed_nodes(S0, S1, common) if x not in allowed]
+        # the value of t itself may differ in the last bits (weekly round trip); everything outside descendants(t) must be bit-identical
+        if ch:
+            viol(f"function_other_unit:{aw}->{ch[0]}", f"replacing {t} by a function that reads {aw} instead of {a} changes {ch[0]} "
+                                                      f"(+{len(ch) - 1} more), which does not depend on {t}", changed_outside=ch[:8])
     res["sample"] = dict(date=item["date"], population=popgen.describe(df), reforms=res["reforms"][:10])
     return res
 
